@@ -587,8 +587,33 @@ fn join_case(reg: Reg, front: Front, rng: &mut Prng, col: &mut Collector) {
                 if let Some((nk, ak, addr)) = dev.session_keys() {
                     let net = Net { nwk: nk, app: ak, addr };
                     let del = rng.range(2, 16) as u8;
-                    let f = net.mac_downlink(1, &rx_timing_setup_req(del), rng.bool());
+                    let mut fc = 1u32;
+                    let f = net.mac_downlink(fc, &rx_timing_setup_req(del), rng.bool());
+                    fc += 1;
                     let _ = dev.transact(Action::Send { data: &[9], port: 1, confirmed: false }, &Script::rx1(f));
+                    // dynamic plans, now and then: the old session also paired its default channels with other
+                    // downlink frequencies (DlChannelReq). The network the device joins now knows nothing of
+                    // that: the join request's RX1 and the RX1 of the new session are on the uplink frequency
+                    // again (the expectation below is computed with an empty DlChannel model)
+                    let mut remapped = false;
+                    if !reg.fixed() && rng.bool() {
+                        let (lo, hi) = reg.inner_band();
+                        let mut cmds = vec![];
+                        for idx in 0..reg.default_channels().len() as u8 {
+                            let fdl = lo + rng.below(((hi - lo) / 100) as u64) as u32 * 100;
+                            cmds.extend(dl_channel_req(idx, fdl / 100));
+                        }
+                        let f = net.mac_downlink(fc, &cmds, rng.bool());
+                        fc += 1;
+                        let t_ev = dev.ev_len();
+                        let _ = dev.transact(Action::Send { data: &[9], port: 1, confirmed: false }, &Script::rx1(f));
+                        let _ = t_ev;
+                        let s = dev.snapshot();
+                        remapped = s.region.channels.iter().flatten().any(|c| c.rx1_frequency != c.ul_frequency);
+                        if remapped {
+                            col.event("old_session_remapped_rx1");
+                        }
+                    }
                     // now and then the old session also moved RX2 and the RX1 offset (RXParamSetupReq). A join leaves
                     // that session behind: nothing was negotiated with the network the device joins now, so the
                     // join request's own windows and the RX2 frequency of the new session are the regional defaults
@@ -599,7 +624,7 @@ fn join_case(reg: Reg, front: Front, rng: &mut Prng, col: &mut Collector) {
                         let f2 = lo + rng.below(((hi - lo) / 100) as u64) as u32 * 100;
                         let o2 = rng.below(reg.max_rx1_offset() as u64 + 1) as u8;
                         let c = rx_param_setup_req((o2 << 4) | reg.rx2_default().1, f2 / 100);
-                        let f = net.mac_downlink(2, &c, rng.bool());
+                        let f = net.mac_downlink(fc, &c, rng.bool());
                         let _ = dev.transact(Action::Send { data: &[9], port: 1, confirmed: false }, &Script::rx1(f));
                         let s = dev.snapshot();
                         moved = s.rx2_frequency == Some(f2) && f2 != reg.rx2_default().0;
@@ -607,7 +632,7 @@ fn join_case(reg: Reg, front: Front, rng: &mut Prng, col: &mut Collector) {
                             col.event("old_session_moved_rx2");
                         }
                     }
-                    if moved && rng.bool() {
+                    if (moved || remapped) && rng.bool() {
                         // an unanswered re-join attempt first: its windows are judged against the defaults
                         dev.set_rng_next(rng.next_u32());
                         let mut snap = dev.snapshot();
@@ -623,7 +648,7 @@ fn join_case(reg: Reg, front: Front, rng: &mut Prng, col: &mut Collector) {
                         let evs = dev.evs_since(ev1);
                         let after = dev.snapshot();
                         col.event("rejoin_windows_after_moved_rx2");
-                        check_windows(reg, front, true, &snap, &after, false, &model, &evs, txd, lead, col, "re-join-after-moved-rx2", json!({"old_session": "RXParamSetupReq accepted"}));
+                        check_windows(reg, front, true, &snap, &after, false, &model, &evs, txd, lead, col, if moved { "re-join-after-moved-rx2" } else { "re-join-after-remapped" }, json!({"old_session_moved_rx2": moved, "old_session_remapped_rx1": remapped}));
                     }
                     let ja2 = JoinAcceptDesc { join_nonce: rng.below(1 << 24) as u32, net_id: 1, dev_addr: rng.next_u32(), dl_settings: reg.rx2_default().1, rx_delay: *rng.pick(&[0u8, 0, 1, 3, 15]), cf_list: None };
                     let w = encode_join_accept(&creds.app_key, &ja2);
@@ -646,7 +671,7 @@ fn join_case(reg: Reg, front: Front, rng: &mut Prng, col: &mut Collector) {
                             let evs = dev.evs_since(ev1);
                             let mut after = dev.snapshot();
                             after.rx2_frequency = None;
-                            check_windows(reg, front, false, &snap, &after, false, &model, &evs, txd, lead, col, if moved { "first-after-rejoin-moved-rx2" } else { "first-after-rejoin" }, json!({"rx_delay": ja2.rx_delay, "old_session_del": del, "old_session_moved_rx2": moved}));
+                            check_windows(reg, front, false, &snap, &after, false, &model, &evs, txd, lead, col, if moved { "first-after-rejoin-moved-rx2" } else if remapped { "first-after-rejoin-remapped" } else { "first-after-rejoin" }, json!({"rx_delay": ja2.rx_delay, "old_session_del": del, "old_session_moved_rx2": moved}));
                         }
                     }
                 }
